@@ -6,10 +6,14 @@
        literal discriminators always present — for EVERY object whose unstructuring succeeds, however it was built;
    (3) generic: unstructuring an object of class c at class c writes exactly the non-omitted attributes, each as the
        unstructuring of its value at the annotated type, in attribute order (unstr_class_spec).
-   The full statement [C02_statement] over the relation Build is kept below; until its generic proof is finished the
-   constructor stream decides it on the real classes (every structure and message, every alternative, shapes). *)
-From LSP Require Import Base MM Sem SemThy Image ImageThy Names Denote RoundTrip HookFrag Built.
-From Gen Require Import MMData PkgData.
+   ROUND 4 — the statement itself: [C02_valid_value_built_serialises] / [C02_structures]: for EVERY class of the package (no
+   coverage restriction: no hook is involved), every Python-valid / metamodel-valid value j and every object o the constructors build
+   from the values of j (LSP.Build.bld: attributes under the snake_case names, absent optional members at their default, enumeration
+   values as members, at a union any alternative the value is valid for), unstructuring o yields the normal form of j: equal to j up to
+   null-valued members (unset optional members omitted, null-admitting ones written as null).  The constructor stream checks the
+   same on the real classes (every structure and message, every alternative, shapes). *)
+From LSP Require Import Base MM Sem SemThy Image ImageThy Names Denote RoundTrip HookFrag Built Build Link MMRound.
+From Gen Require Import MMData PkgData Known.
 From Props Require Import Cover.
 
 Theorem C02_image : W_img mm Sg alias_objects plain_classes = true.
@@ -59,6 +63,37 @@ Theorem C02_built_serialises_and_reparses (pystr : json -> string) : forall P o,
   exists n o' j', unstr Sg n (Some P) o = Ok (den Sg o) /\
                   structure Sg pystr n P (den Sg o) = Ok o' /\ has_type Sg P o' /\ unstr Sg n (Some P) o' = Ok j' /\ RoundTrip.NEq (den Sg o) j'.
 Proof. exact (built_serialises_and_reparses Sg pystr NLm (fst cov) (snd cov) C02_class_tables_ok cover_table_ok cover_hooks_ok). Qed.
+(* (6) ROUND 4 — from the valid value to the serialised normal form, every class, every choice of alternatives *)
+Theorem C02_class_tables_ok2 : all_cls_ok2 Sg NLm = true.
+Proof. vm_compute. reflexivity. Qed.
+Theorem C02_valid_value_built_serialises : forall P j o, pvalid Sg NLm P j -> bld Sg NLm P j o ->
+  built Sg NLm P o /\ RoundTrip.NEq j (den Sg o) /\ exists n, unstr Sg n (Some P) o = Ok (den Sg o).
+Proof. exact (bld_serialises Sg NLm C02_class_tables_ok C02_class_tables_ok2). Qed.
+(* metamodel-valid values of every structure, at the class of the same name *)
+Theorem C02_structures : forall s st j o, find_struct mm s = Some st -> String.eqb s "LSPObject" = false -> cvalid mm (TRef s) j ->
+  bld Sg NLm (PyCls s) j o ->
+  built Sg NLm (PyCls s) o /\ RoundTrip.NEq j (den Sg o) /\ exists n, unstr Sg n (Some (PyCls s)) o = Ok (den Sg o).
+Proof.
+  intros s st j o F O V B. apply C02_valid_value_built_serialises; [|exact B]. rewrite <- nl_eq.
+  exact (mm_pvalid_structure mm Sg alias_objects plain_classes cover_image cover_names_ok cover_fields_ok2 s st j F O V).
+Qed.
+(* message envelopes (requests, responses, notifications) at their message classes *)
+Theorem C02_messages : forall tp j o, In tp covered_msg_pairs -> cvalid mm (TLit (snd (fst tp))) j -> bld Sg NLm (PyCls (snd tp)) j o ->
+  built Sg NLm (PyCls (snd tp)) o /\ RoundTrip.NEq j (den Sg o) /\ exists n, unstr Sg n (Some (PyCls (snd tp))) o = Ok (den Sg o).
+Proof.
+  intros tp j o I V B. apply C02_valid_value_built_serialises; [|exact B]. rewrite <- nl_eq.
+  pose proof covered_msg_pairs_ok as H. rewrite forallb_forall in H. specialize (H tp I). unfold msg_pair_ok in H.
+  destruct (lookup_cls Sg (snd tp)) as [fs|] eqn:L; [|discriminate].
+  apply andb_true_iff in H. destruct H as [H _]. apply andb_true_iff in H. destruct H as [NS CB]. apply none_eq in NS.
+  exact (mm_pvalid_literal mm Sg alias_objects plain_classes cover_image cover_names_ok cover_fields_ok2 (snd (fst tp)) (snd tp) fs j L NS CB V).
+Qed.
+(* non-vacuity: the object built from a concrete valid value *)
+Example C02_bld_example : bld Sg NLm (PyCls "Position") (JObj [("line", JInt 1); ("character", JInt 2)]) (VObj "Position" [("line", VInt 1); ("character", VInt 2)]).
+Proof.
+  apply (bl_cls Sg NLm "Position" pos_fs); [vm_compute; reflexivity|].
+  repeat constructor; cbn; try (intros v E; inversion E; constructor); try discriminate.
+Qed.
+
 (* non-vacuity: a concrete constructor-built value *)
 Example C02_built_example : built Sg NLm (PyCls "Position") (VObj "Position" [("line", VInt 1); ("character", VInt 2)]).
 Proof.
@@ -74,3 +109,7 @@ Print Assumptions C02_wire_is_metamodel_name.
 Print Assumptions C02_unstr_class_spec.
 Print Assumptions C02_well_typed_objects_serialise_to_their_denotation.
 Print Assumptions C02_built_serialises_and_reparses.
+Print Assumptions C02_class_tables_ok2.
+Print Assumptions C02_valid_value_built_serialises.
+Print Assumptions C02_structures.
+Print Assumptions C02_messages.
